@@ -199,6 +199,19 @@ class Inliner:
                 return None   # overridden somewhere: not a fixed body
             f = m
         elif isinstance(call.func, ast.Attribute) and \
+                isinstance(call.func.value, ast.Name) and \
+                self.module.imports.get(call.func.value.id, ('',))[0] == 'module' and \
+                self.module.imports[call.func.value.id][1].startswith('gym_gridverse.'):
+            # `terminating_fs.overlap(..)`: a component of another module of the package named
+            # through the module: a delegation across roles is read through (the shipped names
+            # are vocabulary only within their own module)
+            name = call.func.attr
+            mod_name = self.module.imports[call.func.value.id][1]
+            tm = next((m_ for m_ in self.index.modules.values() if m_.name == mod_name), None)
+            f = tm.functions.get(name) if tm is not None else None
+            if f is None or name in self.exclude or opaque_decorators(f.node, registered=True):
+                return None
+        elif isinstance(call.func, ast.Attribute) and \
                 isinstance(call.func.value, ast.Name) and call.func.value.id not in ('self', 'cls'):
             # `obj.m(..)` where exactly one class of the package defines a method `m` and that
             # method updates its receiver (a mutator moved into the class: `door.open()`);
@@ -781,6 +794,16 @@ def inline_pure_exprs(index: RepoIndex, module: Module, cls, expr: ast.AST,
                 m = index.method(cls, c.func.attr)
                 if m is not None and not m.node.decorator_list:
                     target, skip_self = m, True
+            elif isinstance(c.func, ast.Attribute) and isinstance(c.func.value, ast.Name) \
+                    and module.imports.get(c.func.value.id, ('',))[0] == 'module' \
+                    and module.imports[c.func.value.id][1].startswith('gym_gridverse.') \
+                    and c.func.attr not in keep:
+                # a function of another module of the package, named through the module
+                tm = next((m_ for m_ in index.modules.values()
+                           if m_.name == module.imports[c.func.value.id][1]), None)
+                r = tm.functions.get(c.func.attr) if tm is not None else None
+                if r is not None and not opaque_decorators(r.node, registered=True):
+                    target = r
             if target is None:
                 return c
             fn = target.node
